@@ -64,10 +64,12 @@ func (c *verifFaultCtl) event(kind string) error {
 // Besides the one-shot "k-th statement fails", a database FILE can be put into a standing outage:
 // every READ of it fails at a chosen stage (prepare / query / scan of the row), as a primary that
 // fails fast does; with writes = false every other statement fails too.  Stages:
-//   prepare: Prepare of a SELECT fails (writes = false: every Prepare, Begin, Query, Exec)
-//   query:   running a prepared SELECT fails (writes = false: also every Exec / Query)
-//   scan:    fetching a row of a prepared SELECT fails (writes = false: also every Exec and
-//            every other row fetch)
+//
+//	prepare: Prepare of a SELECT fails (writes = false: every Prepare, Begin, Query, Exec)
+//	query:   running a prepared SELECT fails (writes = false: also every Exec / Query)
+//	scan:    fetching a row of a prepared SELECT fails (writes = false: also every Exec and
+//	         every other row fetch)
+//
 // Standing failures are not numbered by the one-shot counter.
 type verifOutageCtl struct {
 	mu     sync.Mutex
@@ -147,8 +149,10 @@ type vfConn struct {
 func (c *vfConn) Prepare(q string) (driver.Stmt, error) {
 	return c.PrepareContext(context.Background(), q)
 }
-func (c *vfConn) Close() error              { return c.c.Close() }
-func (c *vfConn) Begin() (driver.Tx, error) { return c.BeginTx(context.Background(), driver.TxOptions{}) }
+func (c *vfConn) Close() error { return c.c.Close() }
+func (c *vfConn) Begin() (driver.Tx, error) {
+	return c.BeginTx(context.Background(), driver.TxOptions{})
+}
 func (c *vfConn) Ping(ctx context.Context) error {
 	return c.c.Ping(ctx)
 }
